@@ -104,7 +104,8 @@ impl<'a> SdesChunk<'a> {
                 ret.items.push(item);
             }
 
-            while offset < data.len() && data[offset] == 0 {
+            // the null octets after the terminator only fill up to the next 32-bit boundary
+            while offset < data.len() && offset % 4 != 0 && data[offset] == 0 {
                 offset += 1;
             }
         }
